@@ -3,6 +3,7 @@ module k8s.io/gengo/v2
 go 1.20
 
 require (
+	github.com/google/go-cmp v0.6.0
 	github.com/spf13/pflag v1.0.5
 	golang.org/x/tools v0.16.1
 	k8s.io/klog/v2 v2.2.0
@@ -10,6 +11,5 @@ require (
 
 require (
 	github.com/go-logr/logr v0.2.0 // indirect
-	github.com/google/go-cmp v0.6.0 // indirect
 	golang.org/x/mod v0.14.0 // indirect
 )
